@@ -3,6 +3,7 @@ package main
 import (
 	"fmt"
 	"regexp"
+	"sort"
 	"strconv"
 	"strings"
 )
@@ -57,7 +58,20 @@ func (pcr *PreConfigRoute) FindRoute(dest string) (protocol string, host string,
 	if item, ok := pcr.items[dest]; ok {
 		return item.protocol, item.host, item.port, nil
 	}
-	for _, item := range pcr.items {
+	// scan the patterns in a fixed order (longest, i.e. most specific, first) so that
+	// overlapping wildcard entries always give the same answer
+	dests := make([]string, 0, len(pcr.items))
+	for d := range pcr.items {
+		dests = append(dests, d)
+	}
+	sort.Slice(dests, func(i, j int) bool {
+		if len(dests[i]) != len(dests[j]) {
+			return len(dests[i]) > len(dests[j])
+		}
+		return dests[i] < dests[j]
+	})
+	for _, d := range dests {
+		item := pcr.items[d]
 		matched, err := regexp.MatchString(pcr.toRegularExp(item.dest), dest)
 		if matched && err == nil {
 			return item.protocol, item.host, item.port, nil
